@@ -219,6 +219,13 @@ def _match_value(m):
                            "groups": lambda interp2, *a: m.groups(*a)})
 
 
+def _re_escape(interp, args, kwargs):
+    """re.escape on a concrete string (the standard library's own function; module constants are built with it)"""
+    if not isinstance(args[0], str):
+        raise Unsupported("re.escape on a symbolic string")
+    return _re.escape(args[0])
+
+
 def _re_sub(interp, args, kwargs):
     from pyvc.values import Opaque
     pat, repl, s = args[0], args[1], interp.resolve(args[2])
@@ -285,7 +292,7 @@ def _random_seed(interp, args, kwargs):
 
 
 EXTERNALS = {"random.seed": _random_seed, "builtins.max.symbolic": _max_symbolic, "marshmallow.Schema": _marshmallow_schema, "Bio.Seq.Seq": bio_seq, "re.compile": _re_compile, "re.match": _re_apply("match"),
-             "re.search": _re_apply("search"), "re.sub": _re_sub, "re.fullmatch": _re_apply("fullmatch"),
+             "re.search": _re_apply("search"), "re.sub": _re_sub, "re.escape": _re_escape, "re.fullmatch": _re_apply("fullmatch"),
              "collections.defaultdict": _defaultdict}
 EXTERNAL_CONSTS = {"string.punctuation": _string.punctuation, "re.IGNORECASE": int(_re.IGNORECASE),
                    "re.I": int(_re.IGNORECASE)}
